@@ -156,7 +156,7 @@ func cmdVerify(args []string) {
 		for _, ob := range sc.obls {
 			jobs = append(jobs, job{sc, ob})
 		}
-		dischargeAll(jobs, *timeout, 16, *all)
+		dischargeAll(jobs, *timeout, 12, *all)
 		ok, fail := 0, 0
 		for _, ob := range sc.obls {
 			if ob.Status == "unsat" {
